@@ -487,15 +487,16 @@ func init() {
 					page := pre + `@component("~pair", {left: base.append("L"), right: base.append("R")})` +
 						`@component("~pair", {right: base.prepend("P"), left: base.slice(0, 1).append("x")})` +
 						`@each(k in [1, 2])@component("~pair", {left: base.append(k.str()), right: base.slice(0, 1).append("y").append("z")})@end` +
+						`@component("~count", {n: base.shuffle().len(), right: base})@each(k in [1, 2])@component("~count", {right: base, n: base.shuffle().shuffle().len() + k})@end` +
 						`@component("~pair", {left: base, right: base.reverse()})@slot{{ base.append("S").join("") }}@end@end{{ base.join("") }}`
 					first := base[:1]
 					rev := []byte(base)
 					for a, b := 0, len(rev)-1; a < b; a, b = a+1, b-1 {
 						rev[a], rev[b] = rev[b], rev[a]
 					}
-					files := map[string]string{"components/pair.tw": "<{{ left.join(\"\") }}|{{ right.join(\"\") }}:@slot>", "page.tw": page}
+					files := map[string]string{"components/pair.tw": "<{{ left.join(\"\") }}|{{ right.join(\"\") }}:@slot>", "components/count.tw": "({{ n }}|{{ right.join(\"\") }})", "page.tw": page}
 					// (the default slot is only passed by the last use; every use prints ':' before it)
-					want := "<" + base + "L|" + base + "R:>" + "<" + first + "x|P" + base + ":>" + "<" + base + "1|" + first + "yz:><" + base + "2|" + first + "yz:><" + base + "|" + string(rev) + ":" + base + "S>" + base
+					want := "<" + base + "L|" + base + "R:>" + "<" + first + "x|P" + base + ":>" + "<" + base + "1|" + first + "yz:><" + base + "2|" + first + "yz:>" + fmt.Sprintf("(%d|%s)(%d|%s)(%d|%s)", n, base, n+1, base, n+2, base) + "<" + base + "|" + string(rev) + ":" + base + "S>" + base
 					tpl, err := loadTree(c, "c07args", files, ".tw")
 					c.Nontrivial(fmt.Sprint(n, fromData))
 					if err != nil {
